@@ -181,6 +181,9 @@ def run_instance(modname, obname, prop, params, cfg):
             tag, claims, exp_kind = None, (val or {}), "ok"
             res["ok_paths"] += 1
         failed = False
+        # implicit obligation of every harness: this path ended in a value or an allowed refusal, not in a foreign exception
+        res["claims"] += 1
+        res["discharged"] += 1
         for cn, c in claims.items():
             res["claims"] += 1
             v, m = ex.prove(c)
@@ -248,6 +251,8 @@ def run_instance(modname, obname, prop, params, cfg):
         instr.reset_hash_ufs()
         instr.HASH_INJECTIVE = False
         core.ABSTRACT_BITS = None
+        core.ABSTRACT_DIV_BITS = None
+        core.INT_FIRST = False
         return ob.fn(ex, **params)
 
     try:
